@@ -162,10 +162,10 @@ VIOL_RE = re.compile(r"^VERIF-VIOLATION property=(\S+) spec=(\S+) replay=(\S+) m
 PASSED_RE = re.compile(r"\[rapid\] OK, passed (\d+) tests")
 
 
-def run_replay(binary, target, rundir, tag, excludes=(), timeout=600):
+def run_replay(binary, target, rundir, tag, excludes=(), timeout=600, hang_bound=180):
     env = goenv()
     env.update({"VERIF_OUT": os.path.join(rundir, "out"), "VERIF_REPLAYS": REPLAYS, "VERIF_REPLAY": target,
-                "VERIF_EXCLUDE": ",".join(sorted(excludes)), "VERIF_HANG_BOUND": "180"})
+                "VERIF_EXCLUDE": ",".join(sorted(excludes)), "VERIF_HANG_BOUND": str(hang_bound)})
     if binary.endswith(".race.test"):
         env["GORACE"] = "halt_on_error=1 exitcode=66"
     j = Job("replay:" + tag, [binary, "-test.run", "^TestReplay$", "-test.v", "-test.timeout", "0"], env,
@@ -559,7 +559,8 @@ def reduce_died_case(pid, binary, path, rundir, excludes, budget=60):
         runs[0] += 1
         tmp = os.path.join(rundir, f"reduce-{runs[0]}.json")
         json.dump({"property": doc["property"], "spec": doc["spec"], "message": doc.get("message", ""), "case": c}, open(tmp, "w"))
-        r = run_replay(binary, tmp, rundir, f"reduce-{runs[0]}", excludes, timeout=180)
+        # (the reducer only asks "does it still fail the same way": the short bound will do)
+        r = run_replay(binary, tmp, rundir, f"reduce-{runs[0]}", excludes, timeout=180, hang_bound=30)
         return r.rc != 0
 
     best = case
